@@ -144,7 +144,7 @@ pub fn generate(r: &mut Runner) {
         let ms: Vec<f64> = (0..nm).map(|_| *r.rng.pick(&[0.5, 1.0, 2.0, 3.0, 10.0])).collect();
         let len = r.rng.range(1, maxlen);
         let regime = *r.rng.pick(gen::REGIMES);
-        let scale = *r.rng.pick(&[1e-2, 1.0, 100.0, 1e6]);
+        let scale = *r.rng.pick(&[1e-17, 1e-9, 1e-2, 1.0, 100.0, 1e6]);
         let bars = !crate::ind::has_next_name(name) || (name != "BollingerBands" && name != "MovingAverageConvergenceDivergence" && name != "PercentagePriceOscillator" && r.rng.chance(0.5));
         let positive = bars || name == "PercentagePriceOscillator" || r.rng.chance(0.5);
         let xs = gen::stream(&mut r.rng, regime, len, positive, scale);
